@@ -47,6 +47,25 @@ pub fn depth1() -> Vec<Entry> {
     v
 }
 
+/// two DIFFERENT types with the same `core::any::type_name` (block-local items of one function) and the same
+/// definition: they must still be unequal, and order / hash consistently with that
+macro_rules! local_record {
+    () => {{
+        #[derive(scale_info::TypeInfo)]
+        struct Record {
+            a: u8,
+        }
+        meta_type::<Record>()
+    }};
+}
+pub fn same_name_locals() -> Vec<Entry> {
+    vec![
+        Entry { label: "LocalRecordA", meta: local_record!() },
+        Entry { label: "LocalRecordB", meta: local_record!() },
+        Entry { label: "LocalRecordC", meta: local_record!() },
+    ]
+}
+
 pub fn depth2() -> Vec<Entry> {
     let mut v = wrap_sized!(depth2; u8, bool, String, PhantomData<u8>, S, ());
     v.extend(wrap_sized!(table; Box<str>, Rc<str>, &'static str, Box<[u8]>, Arc<[u8]>, &'static [u8], &'static mut [u8]));
